@@ -5,10 +5,13 @@
 package c07
 
 import (
+	"database/sql/driver"
 	"fmt"
 	"reflect"
 	"sort"
 	"strings"
+	"sync/atomic"
+	"time"
 
 	"gorm.io/gorm"
 )
@@ -56,9 +59,87 @@ type Tag struct {
 	Label string
 }
 
-// relation-free models
+// relation-free models. Gadget carries the field shapes whose schema setup and scan paths have
+// state of their own: a serializer (pooled *serializer scan values), a custom Valuer/Scanner type,
+// an embedded struct (parsed through a private embedded cache), tracked times and hook methods.
 type Gadget struct {
-	ID   uint `gorm:"primaryKey;autoIncrement:false"`
+	ID        uint `gorm:"primaryKey;autoIncrement:false"`
+	Name      string
+	Qty       int
+	Labels    []string `gorm:"serializer:json"`
+	Level     Level
+	Spec      Spec `gorm:"embedded;embeddedPrefix:spec_"`
+	CreatedAt time.Time
+	UpdatedAt time.Time
+	Seen      int `gorm:"-"` // set by AfterFind
+}
+
+// Level is stored as text through its own Valuer/Scanner.
+type Level int
+
+func (Level) GormDataType() string { return "string" }
+
+func (l Level) Value() (driver.Value, error) { return fmt.Sprintf("L%d", int(l)), nil }
+
+func (l *Level) Scan(v interface{}) error {
+	var s string
+	switch x := v.(type) {
+	case string:
+		s = x
+	case []byte:
+		s = string(x)
+	case nil:
+		*l = 0
+		return nil
+	default:
+		return fmt.Errorf("c07: Level.Scan %T", v)
+	}
+	n := 0
+	if _, err := fmt.Sscanf(s, "L%d", &n); err != nil {
+		return fmt.Errorf("c07: Level.Scan %q", s)
+	}
+	*l = Level(n)
+	return nil
+}
+
+type Spec struct {
+	Color string
+	Size  int
+}
+
+// hook methods: they touch the value they are called on and a counter only
+var hookCalls int64
+
+func (g *Gadget) BeforeCreate(tx *gorm.DB) error {
+	atomic.AddInt64(&hookCalls, 1)
+	if g.Spec.Color == "" {
+		g.Spec.Color = "plain"
+	}
+	return nil
+}
+
+func (g *Gadget) AfterFind(tx *gorm.DB) error {
+	atomic.AddInt64(&hookCalls, 1)
+	g.Seen++
+	return nil
+}
+
+func (w *Widget) BeforeSave(tx *gorm.DB) error {
+	atomic.AddInt64(&hookCalls, 1)
+	if w.Code == "" {
+		w.Code = "nocode"
+	}
+	return nil
+}
+
+// GadgetLite: a smaller destination type for Model(&Gadget{}).Find(&[]GadgetLite{}) (first use of a
+// type as a scan destination). GadgetFilter: a type used only as a struct condition.
+type GadgetLite struct {
+	ID   uint
+	Name string
+}
+
+type GadgetFilter struct {
 	Name string
 	Qty  int
 }
@@ -201,7 +282,7 @@ var ddl = []string{
 	"CREATE TABLE `reviews` (`id` integer,`stars` integer,`book_id` integer,PRIMARY KEY (`id`))",
 	"CREATE TABLE `tags` (`id` integer,`label` text,PRIMARY KEY (`id`))",
 	"CREATE TABLE `author_tags` (`author_id` integer,`tag_id` integer,PRIMARY KEY (`author_id`,`tag_id`))",
-	"CREATE TABLE `gadgets` (`id` integer,`name` text,`qty` integer,PRIMARY KEY (`id`))",
+	"CREATE TABLE `gadgets` (`id` integer,`name` text,`qty` integer,`labels` text,`level` text,`spec_color` text,`spec_size` integer,`created_at` datetime,`updated_at` datetime,PRIMARY KEY (`id`))",
 	"CREATE TABLE `widgets` (`id` integer,`code` text,`weight` real,`deleted_at` datetime,PRIMARY KEY (`id`))",
 	"CREATE TABLE `parcels` (`id` integer,`label` text,`weight` integer,`depot_id` integer,`courier_id` integer,`customs_id` integer,`sorter_id` integer,PRIMARY KEY (`id`))",
 	"CREATE TABLE `depots` (`id` integer,`name` text,PRIMARY KEY (`id`))",
@@ -293,7 +374,19 @@ func renderReview(r *Review) string {
 
 func renderTag(t *Tag) string { return fmt.Sprintf("Tag{%d %q}", t.ID, t.Label) }
 
-func renderGadget(g *Gadget) string { return fmt.Sprintf("Gadget{%d %q %d}", g.ID, g.Name, g.Qty) }
+func renderGadget(g *Gadget) string {
+	s := fmt.Sprintf("Gadget{%d %q %d %q L%d %s/%d", g.ID, g.Name, g.Qty, g.Labels, int(g.Level), g.Spec.Color, g.Spec.Size)
+	if !g.CreatedAt.IsZero() {
+		s += " c=" + g.CreatedAt.UTC().Format("15:04:05")
+	}
+	if !g.UpdatedAt.IsZero() {
+		s += " u=" + g.UpdatedAt.UTC().Format("15:04:05")
+	}
+	if g.Seen != 0 {
+		s += fmt.Sprintf(" seen=%d", g.Seen)
+	}
+	return s + "}"
+}
 
 func renderWidget(w *Widget) string {
 	s := fmt.Sprintf("Widget{%d %q %g", w.ID, w.Code, w.Weight)
@@ -341,6 +434,8 @@ func render(v interface{}) string {
 		return renderGadget(x)
 	case *Widget:
 		return renderWidget(x)
+	case *GadgetLite:
+		return fmt.Sprintf("GadgetLite{%d %q}", x.ID, x.Name)
 	case *Parcel:
 		return renderParcel(x)
 	case *Depot:
